@@ -776,6 +776,13 @@ func (ev *fixEvaluator) ProductAtKeyLevel(op0, op1, opOut *rlwe.Ciphertext) {
 	r.MulCoeffsMontgomery(op0.Value[1], op1.Value[0], opOut.Value[1])
 }
 
+// RESIZECOND control: the receiver is only ever raised
+func raiseOnly(ct *rlwe.Ciphertext, pt *rlwe.Plaintext) {
+	if ct.Level() < pt.Level() {
+		ct.Resize(ct.Degree(), pt.Level())
+	}
+}
+
 // ERRSTORE control: the failed product stays in the cache
 type powCache struct{ vals map[int]*big.Int }
 
